@@ -1637,3 +1637,53 @@ func ruleCatchUpFlushesFirst(c *Ctx, r *Reporter) {
 	r.Check(firstBad == nil, "wal.WAL.GetEntriesFrom:flush-before-read", p, "the buffered writer is flushed before any log file is read",
 		"a log file can be read without the buffered writer having been flushed: what GetEntriesFrom returns lacks the writes still in the buffer, so under SyncBatch/SyncNone a replica that must catch up (late join, restart, reconnect) never receives the newest writes and the poll keeps sending nothing", c.PathString(badPath)...)
 }
+
+// ruleNoBlockingChanUnderLock: no blocking channel send (a plain `ch <- v`, or a select without a default arm that sends)
+// while a mutex is held, in the engine/storage/transaction/compaction/memtable/wal packages. The receiver of such a channel
+// is a background worker that needs the same locks to get back to its receive (scheduleFlush signals the flusher with
+// Manager.mu held exclusively; the flusher takes Manager.mu before it returns to the channel).
+func ruleNoBlockingChanUnderLock(c *Ctx, r *Reporter) {
+	r.Rule("no-blocking-channel-send-under-a-lock", 1)
+	li := c.Locks()
+	n := 0
+	for _, fn := range c.KevoFns {
+		if !inC07Scope(fn) {
+			continue
+		}
+		AllInstrs(fn, false, func(_ *ssa.Function, ins ssa.Instruction) {
+			blocking := false
+			what := ""
+			switch x := ins.(type) {
+			case *ssa.Send:
+				blocking, what = true, "ch <- v on "+Path(x.Chan)
+			case *ssa.Select:
+				if x.Blocking {
+					for _, st := range x.States {
+						if st.Dir == types.SendOnly {
+							blocking, what = true, "select without default sending on "+Path(st.Chan)
+						}
+					}
+				} else {
+					for _, st := range x.States {
+						if st.Dir == types.SendOnly {
+							n++
+							r.OK(fmt.Sprintf("%s:send(%s)", FnName(topParent(fn)), sanitize(Path(st.Chan))), c.InsPos(ins), "non-blocking send (select with default)")
+						}
+					}
+				}
+			}
+			if !blocking {
+				return
+			}
+			n++
+			held := li.HeldAt(ins)
+			cons := fmt.Sprintf("%s:send(%s)", FnName(topParent(fn)), sanitize(what))
+			r.Check(len(held) == 0, cons, c.InsPos(ins), "blocking send with no lock held",
+				"a blocking channel send ("+what+") runs while "+held.String()+" is held: when the channel is full the sender waits for the receiver, and the receiver (a background worker) needs that lock before it receives again — every later call blocks for ever")
+		})
+	}
+	if n == 0 {
+		r.Info("channel-sends", "", "no channel send in scope")
+		r.OK("channel-sends:none", "", "nothing to require")
+	}
+}
